@@ -27,6 +27,19 @@ CLAIMED["C02"] = {
     "design_ref": "5 C02",
 }
 
+CLAIMED["C07"] = {
+    "technique": "Lean 4 proof that comparison ufuncs after strict conversion decide the order of the physical quantities (positivity of unit ratios); Boolean-table lemma; correspondence incl. exact ties",
+    "text": "C07_cmp (all six operators, all shapes/dtypes/unit pairs: result = element-wise comparison of phys values, dimensionless bool), C07_incompatible_raises, C07_logic / C07_logic_table are proved for the model; C07_cmp_current re-proves against the extracted dtype test that boolean results carry no unit. Tie: generated comparisons with values that differ only after conversion (exact ties in the exact lane), logical ops and comparison/logic chains, diffed against the real Array.",
+    "note": "trusted: Lean kernel + standard axioms; numpy comparison ufuncs modelled; tolerant lane generates no near ties (>= 1% apart after conversion)",
+    "design_ref": "5 C07",
+}
+CLAIMED["C08"] = {
+    "technique": "Lean 4 proofs about Array.to/Vector.to (phys preserved, round trip and chain exact over Q, raises iff dimensions differ) + kernel-checked table theorem on the constants regenerated from defaults.py; correspondence incl. pint's reported values",
+    "text": "C08_to_preserves_phys / C08_to_raises_iff / C08_to_roundtrip / C08_to_chain / C08_vector_componentwise hold for all values, shapes, dtypes and consistent unit catalogues; C08_constants_true (decide +kernel) re-proves on every run that every constant extracted from config/defaults.py has its accepted value, unit and aliases (Reference/Constants.lean). Tie: conversions of all kinds on the real classes vs the model, and the values pint actually reports for every defined name.",
+    "note": "trusted: Lean kernel + standard axioms; reference constants (IAU 2015, CODATA 2018) and the 1e-3 tolerance; pint's parser; fresh HOME so that the repo's defaults.py is what osyris loads",
+    "design_ref": "5 C08",
+}
+
 NOT_YET = {
 }
 
